@@ -383,6 +383,77 @@ func TestNesting(t *testing.T) {
 	r.done()
 }
 
+// TestRefillBoundary: every token of a small alphabet (literals, numbers, strings with
+// escapes, containers, and truncated / malformed variants) placed so that it starts 0..12
+// bytes before the Decoder's buffer boundaries (32 KiB initial fill, 64 KiB after doubling),
+// as a top-level value after a large first value and as the last element inside one large
+// array. A token cut by the end of the buffered data must make the Decoder read more, never
+// report a syntax error the whole document does not have (framing compared with encoding/json).
+func TestRefillBoundary(t *testing.T) {
+	r := &runner{t: t, name: "RefillBoundary"}
+	shard, n := evid.Shard(), evid.NShards()
+	tokens := []string{"true", "false", "null", "0", "-0", "-12.5e+10", "1234567890123", "1E-2", `"a\"b"`, `"\u00e9\ud83d\ude00"`, "\"\u00e9\"", `""`, `{"k":false}`, `[null,true]`, "[]", "{}",
+		"tru", "fals", "nul", "falsx", "nulL", "truE", "-", "1.", "1e", "01", `"\u00"`, `"\x"`, "\"\x01\"", "+1", "fa lse"}
+	idx := 0
+	for _, boundary := range []int{32768, 65536} {
+		for k := 0; k <= 12; k++ {
+			for _, tok := range tokens {
+				for _, shape := range []string{"top", "top-nospace", "inner", "inner-obj"} {
+					idx++
+					if idx%n != shard {
+						continue
+					}
+					start := boundary - k
+					var doc []byte
+					switch shape {
+					case "top": // "xxx…" <space> tok <newline>
+						doc = append(doc, '"')
+						doc = append(doc, bytes.Repeat([]byte{'x'}, start-3)...)
+						doc = append(doc, '"', ' ')
+						doc = append(append(doc, tok...), '\n')
+					case "top-nospace": // [0,0,…,0]tok  (containers and strings may follow without a space)
+						doc = append(doc, '[')
+						doc = append(doc, bytes.Repeat([]byte("0,"), (start-3)/2)...)
+						if (start-3)%2 == 1 {
+							doc = append(doc, ' ')
+						}
+						doc = append(doc, '0', ']')
+						doc = append(doc, tok...)
+					case "inner": // [0,0,…,tok]
+						doc = append(doc, '[')
+						doc = append(doc, bytes.Repeat([]byte("0,"), (start-1)/2)...)
+						if (start-1)%2 == 1 {
+							doc = append(doc, ' ')
+						}
+						doc = append(append(doc, tok...), ']', ' ', '7')
+					default: // {"a":"xxx…","b":tok}
+						doc = append(doc, `{"a":"`...)
+						doc = append(doc, bytes.Repeat([]byte{'x'}, start-12)...)
+						doc = append(doc, `","b":`...)
+						doc = append(append(doc, tok...), '}')
+					}
+					r.evals++
+					r.nt++
+					var wn, gn int
+					var we, ge bool
+					f := guard("Decoder framing", nil, func() { wn, we = frameStd(doc); gn, ge = frameSeg(doc) })
+					if f == nil && (wn != gn || we != ge) {
+						f = &evid.Failure{Oracle: "Decoder frames the same number of values and ends the same way (io.EOF / other error) as encoding/json", Observed: fmt.Sprintf("%d values, clean EOF=%v", gn, ge), Expected: fmt.Sprintf("%d values, clean EOF=%v", wn, we), Class: "framing"}
+					}
+					if f == nil && stdjson.Valid(doc) != segjson.Valid(doc) {
+						f = &evid.Failure{Oracle: "Valid agrees with encoding/json.Valid", Observed: fmt.Sprint(segjson.Valid(doc)), Expected: fmt.Sprint(stdjson.Valid(doc)), Class: "valid"}
+					}
+					if f != nil {
+						r.fail(Case{Doc: doc, What: "all"}, f)
+					}
+				}
+			}
+		}
+	}
+	evid.Label("token-at-refill-boundary")
+	r.done()
+}
+
 // TestGenerated: generated valid documents, their mutations, and random bytes.
 func TestGenerated(t *testing.T) {
 	evid.Check(t, "Generated", 25000, func(rt *rapid.T) {
